@@ -285,6 +285,7 @@ func (c *ctx) genFacts() string {
 	b.WriteString("namespace Gen\n\n")
 	var facts []fact
 	facts = append(facts, c.timerFacts()...)
+	facts = append(facts, c.lockFacts()...)
 	for _, f := range facts {
 		b.WriteString(f.lean() + "\n")
 	}
